@@ -2,6 +2,7 @@ package recordio
 
 import (
 	"encoding/binary"
+	"errors"
 	"fmt"
 
 	"io"
@@ -18,6 +19,7 @@ type Header struct {
 
 var MagicNumberMismatchErr = fmt.Errorf("magic number mismatch")
 var HeaderChecksumMismatchErr = fmt.Errorf("header checksum mismatch")
+var HeaderMalformedErr = fmt.Errorf("record header malformed")
 
 func readFileHeaderFromBuffer(buffer []byte) (*Header, error) {
 	if len(buffer) != FileHeaderSizeBytes {
@@ -122,12 +124,12 @@ func readRecordHeaderV4(reader *checksumByteReader) (payloadSizeUncompressed uin
 		return 0, 0, false, err
 	}
 
-	payloadSizeUncompressed, err = binary.ReadUvarint(reader)
+	payloadSizeUncompressed, err = readHeaderUvarint(reader)
 	if err != nil {
 		return 0, 0, false, err
 	}
 
-	payloadSizeCompressed, err = binary.ReadUvarint(reader)
+	payloadSizeCompressed, err = readHeaderUvarint(reader)
 	if err != nil {
 		return 0, 0, false, err
 	}
@@ -137,7 +139,7 @@ func readRecordHeaderV4(reader *checksumByteReader) (payloadSizeUncompressed uin
 		return 0, 0, false, err
 	}
 
-	expectedChecksum, err := binary.ReadUvarint(reader)
+	expectedChecksum, err := readHeaderUvarint(reader)
 	if err != nil {
 		return 0, 0, false, err
 	}
@@ -148,6 +150,16 @@ func readRecordHeaderV4(reader *checksumByteReader) (payloadSizeUncompressed uin
 	}
 
 	return payloadSizeUncompressed, payloadSizeCompressed, recordNil == 1, nil
+}
+
+// readHeaderUvarint reads a varint header field. Bytes that do not form a varint (e.g. an overflow, which happens
+// when marker bytes inside a payload are probed as a record start) are reported as HeaderMalformedErr.
+func readHeaderUvarint(r io.ByteReader) (uint64, error) {
+	v, err := binary.ReadUvarint(r)
+	if err != nil && !errors.Is(err, io.EOF) && !errors.Is(err, io.ErrUnexpectedEOF) {
+		return 0, fmt.Errorf("%w: %v", HeaderMalformedErr, err)
+	}
+	return v, err
 }
 
 func allocateRecordBuffer(header *Header, payloadSizeUncompressed uint64, payloadSizeCompressed uint64) (uint64, []byte) {
